@@ -252,9 +252,11 @@ def check_size(prog: Program, res: Result) -> None:
     cc = [c for c, q in prog.calls_in(cb) if q == "kornia.geometry.transform.crop_and_resize"]
     szx = astq.xnorm(cb.node, astq.call_arg(cc[0], 2, "size")).replace(" ", "") if len(cc) == 1 else ""
     d = {"box_size": szx}
-    hh = ("abs(bboxes[0,3,1]-bboxes[0,0,1])+1", "abs(bboxes[0,2,1]-bboxes[0,1,1])+1", "abs(bboxes[0,0,1]-bboxes[0,3,1])+1")
-    ww = ("abs(bboxes[0,1,0]-bboxes[0,0,0])+1", "abs(bboxes[0,2,0]-bboxes[0,3,0])+1", "abs(bboxes[0,0,0]-bboxes[0,1,0])+1")
-    ok = any(f"({h_},{w_})" in szx for h_ in hh for w_ in ww)
+    # corners are listed clockwise from the top-left: 0 TL, 1 TR, 2 BR, 3 BL.  The height is the |y| extent of a vertical
+    # side, the width the |x| extent of a horizontal side, of the FIRST box, plus one (both ends inclusive).
+    import re as _re
+    m_ = _re.search(r"\(abs\(bboxes\[0,(\d),1\]-bboxes\[0,(\d),1\]\)\+1,abs\(bboxes\[0,(\d),0\]-bboxes\[0,(\d),0\]\)\+1\)", szx)
+    ok = bool(m_) and {m_.group(1), m_.group(2)} in ({"0", "3"}, {"1", "2"}) and {m_.group(3), m_.group(4)} in ({"0", "1"}, {"2", "3"})
     res.ob(R, ok, cb.qualname, "crop_bboxes size = (box height + 1, box width + 1)", f"crop_bboxes derives its size as {d.get('box_size')}", cb.where)
     res.floor(R, 3)
 
